@@ -95,13 +95,18 @@ Fixpoint strip_ascii (byte : N) (h : hir) : hir + rerr :=
 Definition strip_from_match_ascii (h : hir) (byte : N) : hir + rerr :=
   if (127 <? byte)%N then inr (EInvalidLineTerminator byte) else strip_ascii byte h.
 
-(* strip.rs strip_from_match *)
-Definition strip_from_match (h : hir) (lt : rterm) : hir + rerr :=
+(* strip.rs strip_from_match.  Each pass rebuilds the tree through regex-syntax's simplifying
+   constructors, so in CRLF mode the second pass sees the *rebuilt* result of the first one
+   (e.g. `Z|[\r\n]` becomes `Z|\n`, which regex-syntax turns into the class `[\nZ]`, from which the
+   second pass removes `\n`; without the rebuild the one-point class `[\n]` would be rejected).
+   [norm] stands for that rebuild (third-party; the theorems assume only that it preserves the
+   meaning of the HIR). *)
+Definition strip_from_match (norm : hir -> hir) (h : hir) (lt : rterm) : hir + rerr :=
   match lt with
   | RTCrlf =>
     match strip_from_match_ascii h 13%N with
     | inr e => inr e
-    | inl h1 => strip_from_match_ascii h1 10%N
+    | inl h1 => strip_from_match_ascii (norm h1) 10%N
     end
   | RTByte b => strip_from_match_ascii h b
   end.
@@ -231,13 +236,13 @@ Record rconfig := {
 }.
 
 (* ConfiguredHIR::new after translation (the non-fixed-strings branch) *)
-Definition configure (c : rconfig) (translated : hir) : hir + rerr :=
+Definition configure (norm : hir -> hir) (c : rconfig) (translated : hir) : hir + rerr :=
   match (match c_ban c with Some b => ban_check b translated | None => None end) with
   | Some e => inr e
   | None =>
     match c_line_terminator c with
     | None => inl translated
-    | Some lt => strip_from_match translated lt
+    | Some lt => strip_from_match norm translated lt
     end
   end.
 
@@ -259,8 +264,8 @@ Definition advertised_terminator (c : rconfig) (final : hir) : option rterm :=
   if contains_anchor_haystack final then None else c_line_terminator c.
 
 (* everything build_many derives from the translated HIR except the compiled automata *)
-Definition build (c : rconfig) (translated : hir) : (hir * option rterm) + rerr :=
-  match configure c translated with
+Definition build (norm : hir -> hir) (c : rconfig) (translated : hir) : (hir * option rterm) + rerr :=
+  match configure norm c translated with
   | inr e => inr e
   | inl h => let f := wrap c h in inl (f, advertised_terminator c f)
   end.
